@@ -80,15 +80,24 @@ Fixpoint nodup_b {A} (eqb : A -> A -> bool) (l : list A) : bool :=
   | x :: l' => negb (existsb (eqb x) l') && nodup_b eqb l'
   end.
 
-Definition judge_add (c : list (list str) * list chain * str * option (list chain)) : nat :=
-  let '(bs, calls, line, impl) := c in
+Definition pair_chains_eqb (a b : list chain * list chain) : bool :=
+  chains_eqb (fst a) (fst b) && chains_eqb (snd a) (snd b).
+
+(* (batches, earlier calls, earlier candidates [chains ending in an INTRINSICS entry], line,
+    impl: Some (calls, candidates) | None = exception) *)
+Definition judge_add (c : list (list str) * list chain * list chain * str * option (list chain * list chain)) : nat :=
+  let '(bs, calls, named, line, impl) := c in
   let model := match add_batches [] bs with
-               | Some a => Some (add_calls a calls line)
+               | Some a => Some (add_calls a calls line, add_named a named line)
                | None => None
                end in
-  (* Spec side: the earlier calls being pairwise different, the implementation's list is so as well *)
-  let dup := match impl with Some l => nodup_b (list_eqb str_eqb) calls && negb (nodup_b (list_eqb str_eqb) l) | None => false end in
-  verdict (negb (opt_eqb chains_eqb model impl)) dup 0.
+  (* Spec side: the earlier calls being pairwise different, the implementation's lists are so as well *)
+  let dup := match impl with
+             | Some (l, n) => (nodup_b (list_eqb str_eqb) calls && negb (nodup_b (list_eqb str_eqb) l))
+                              || (nodup_b (list_eqb str_eqb) named && negb (nodup_b (list_eqb str_eqb) n))
+             | None => false
+             end in
+  verdict (negb (opt_eqb pair_chains_eqb model impl)) dup 0.
 
 (* ---- a whole executable part:
    (FORD's label tables when the unit's calls were resolved, the tables Fortran's scoping gives,
